@@ -19,6 +19,7 @@ LEVEL_TEXT = ("seeded search over (content length mod 16, trailing zeros, key cl
 LEVEL_NOTE = ("secrecy uses only high-entropy secrets (>= 8 random bytes) so a chance match has probability < 2^-50; "
               "RefAES is validated against FIPS-197/SP 800-38A vectors and openssl in setup")
 RUNS = {"quick": 8000, "thorough": 200000}
+OPTIMIZED_PASS = {"quick": 500, "thorough": 4000}   # extra runs under PYTHONOPTIMIZE=1 (assert statements removed)
 RULE = ("per run one BF3/BEC2 file with 1-3 session-key-encrypted components (hand-made and set_config), content lengths "
         "over all residues mod 16 with 0-20 trailing zero bytes or all-zero, and one cipher configuration: real, missing, or "
         "raising at call k; non-trivial = cipher fault fired or a stored ciphertext was compared with RefAES; distinct = digests")
@@ -26,7 +27,7 @@ REAL = ["bec2format.bf3file / bec2file / crypto registry", "register_crypto_plug
         "when the fault arm is active)"]
 STUBS = ["medium: SimFS", "RNG: SimRng", "cipher fault wrapper FaultyAES / abstract base class for 'missing'",
          "RefAES, RefDir (independent models)"]
-PROBES = ["concurrent-writers-same-key", "rewritten-under-second-key", "content-longer-than-4096", "content-multiple-of-16", "content-trailing-zero", "content-all-zero", "cipher-missing", "cipher-raised-at-k",
+PROBES = ["runs-with-assertions-disabled", "concurrent-writers-same-key", "rewritten-under-second-key", "content-longer-than-4096", "content-multiple-of-16", "content-trailing-zero", "content-all-zero", "cipher-missing", "cipher-raised-at-k",
           "write-failed-no-file", "write-failed-file-exists", "rewrite-same-ciphertext", "bec2-framing", "config-component",
           "secrecy-needles-checked"]
 ASSUMPTIONS = ["encrypted content is defined up to its declared length; the reader returns the zero-padded plaintext"]
